@@ -1259,7 +1259,7 @@ def gen_rewrite():
     css = ("@page { size: 220px 150px; margin: 20px; marks: crop cross; bleed: 6px; @bottom-center { content: \"pg\" counter(page) \"of\" counter(pages); font-family: ahem; font-size: 8px; line-height: 8px } }\n" + BASE +
            ".ell { max-lines: 2; block-ellipsis: auto; width: 120px } .ell2 { max-lines: 1; block-ellipsis: \"~~\"; width: 100px } .j { text-align: justify; width: 150px } .j2 { text-align: justify; text-align-last: justify; width: 150px }\n")
     W = words("w", 60)
-    svgt = '<svg xmlns="http://www.w3.org/2000/svg" width="120" height="24"><text y="10" font-family="ahem" font-size="6">ta01<tspan>ta02</tspan><tspan dx="2">ta03</tspan></text><text y="20" font-family="ahem" font-size="6" dx="1 2 3">tb01</text><text y="23" font-size="3">tc01<tspan font-size="2">tc02</tspan></text></svg>'
+    svgt = '<svg xmlns="http://www.w3.org/2000/svg" width="120" height="24"><text y="10" font-family="ahem" font-size="6">ta01<tspan>ta02</tspan><tspan dx="2">ta03</tspan></text><text y="20" font-family="ahem" font-size="6" dx="1 2 3">tb01</text><text y="23" font-size="3">tc01<tspan font-size="2">tc02</tspan></text><defs><linearGradient id="tg"><stop offset="0" stop-color="red"/><stop offset="1" stop-color="blue"/></linearGradient></defs><text x="60" y="10" font-family="ahem" font-size="6" fill="url(#tg)" opacity="0.5">td01</text><text x="90" y="20" font-family="ahem" font-size="6" text-anchor="middle" fill="url(#tg)"><tspan>te01</tspan><tspan>te02</tspan></text></svg>'
     body = (para(W[:8]) + '<p class=ell>%s</p><p class=ell2>%s</p>' % (" ".join(W[8:20]), " ".join(W[20:26])) + "<p>%s</p>" % svgt + '<p class=j>%s</p><p class=j2>%s</p><p class=j>%s</p>' % (" ".join(W[26:36]), " ".join(W[36:44]), " ".join(W[26:36]).replace("w0", "v0")) + para(W[44:]))
     scenario("rew-01", "rew", doc(css, body, "<title>Rewrite</title>"), expect=dict(page_w=232, page_h=162, meta={"Title": "Rewrite"}, line_height=12, group="rew"))
 
